@@ -136,7 +136,7 @@ def pokOfSig : List String := [
   "}",
   "κ.Add(pp.g2.Mul(δ))",
   "hε := h.Mul(ε)",
-  "ν := h.Mul(δ)",
+  "ν := hε.Mul(δ)",
   "hPrimeε := hPrime.Mul(ε)",
   "ψ := proveProofOfKnowledgeOfSignatureIsCorrectlyFormed(pp.c, msg, δ, ν, hε, κ, pp.g2, pk.X, pk.Y)"
 ]
